@@ -764,21 +764,20 @@ def SysRel (c : Codec) (s : Strategy) (a b : Sys) : Prop :=
   (∀ p, StoreRel c (a.stores p) (b.stores p)) ∧
   a.log = b.log.map (fun x => (x.1, wire c s x.2))
 
-/-- a single-key command that carries no value (it is forwarded verbatim) -/
-def PassSingle (cmd : List Bytes) : Prop :=
-  cmdTypeOf cmd = .Others ∧ compressRule (dataTypeOf cmd) = .pass ∧
+/-- a command that reaches `handle_single_key_data_cmd` — a single-key client command, a GET/SET
+sub-command, or a regrouped MSETNX — and that one proxy may therefore forward to another -/
+def FwdCmd (cmd : List Bytes) : Prop :=
+  SupportedSingle cmd ∧ cmd ≠ [] ∧
   (dispatchRule (dataTypeOf cmd) = .single ∨
-    (dispatchRule (dataTypeOf cmd) = .multiInt ∧ cmd[2]? = none))
+    (dispatchRule (dataTypeOf cmd) = .multiInt ∧ cmd[2]? = none) ∨
+    dispatchRule (dataTypeOf cmd) = .msetnx)
 
-/-- what one proxy may hand to another in the simulation: a value-free single-key command, bare
-(`max_redirections` unset) or wrapped in `UMFORWARD <times>` -/
-inductive Forwardable : List Bytes → Prop
-  | bare (cmd : List Bytes) : PassSingle cmd → Forwardable cmd
-  | wrapped (t : Bytes) (cmd : List Bytes) : PassSingle cmd → Forwardable (UMFORWARD :: t :: cmd)
-
+/-- proxy-to-proxy hand-over in the two clusters: the compressing cluster forwards the *rewritten*
+command, the plain cluster the original one, both inside `UMFORWARD <t>` -/
 def DeliverRel (c : Codec) (s : Strategy) (dC dP : Deliver) : Prop :=
-  ∀ sysC sysP q fwd, SysRel c s sysC sysP → Forwardable fwd →
-    SysRel c s (dC sysC q fwd).1 (dP sysP q fwd).1 ∧ (dC sysC q fwd).2 = (dP sysP q fwd).2
+  ∀ sysC sysP q t cmd, SysRel c s sysC sysP → FwdCmd cmd →
+    SysRel c s (dC sysC q (UMFORWARD :: t :: wire c s cmd)).1 (dP sysP q (UMFORWARD :: t :: cmd)).1 ∧
+    (dC sysC q (UMFORWARD :: t :: wire c s cmd)).2 = (dP sysP q (UMFORWARD :: t :: cmd)).2
 
 /-- the routing key of `cmd` is owned by proxy `p` -/
 def LocalAt (e : Env) (p : Nat) (cmd : List Bytes) : Prop :=
@@ -804,15 +803,16 @@ theorem backendCall_sim (c : Codec) (s : Strategy) (hs : s ≠ .disabled) (sysC 
     rw [h2]
     exact commitReply_encReply c s hs _ (fun ha => hsup.1 (array_rule_restricted _ ha)) _
 
-theorem PassSingle.ne_nil {cmd : List Bytes} (h : PassSingle cmd) : cmd ≠ [] := by
-  intro hn; subst hn
-  exact absurd h.1 (by decide)
+theorem orElse_some_ne_none {α : Type} (x : Option α) (y : α) :
+    (x.orElse fun _ => some y) ≠ none := by
+  cases x <;> simp
 
+/-- routing step: the compressing cluster routes the rewritten command exactly as the plain cluster
+routes the original -/
 theorem sendCmd_sim (e : Env) (hs : e.strategy ≠ .disabled) (dC dP : Deliver)
     (hD : DeliverRel e.codec e.strategy dC dP) (sysC sysP : Sys)
     (hR : SysRel e.codec e.strategy sysC sysP) (p : Nat) (cmd : List Bytes) (rt : Option Nat)
-    (hsup : SupportedSingle cmd)
-    (hfwd : e.activeRedirection = true → LocalAt e p cmd ∨ PassSingle cmd) :
+    (hf : FwdCmd cmd) :
     SysRel e.codec e.strategy
       (sendCmd e dC sysC p { cmd := wire e.codec e.strategy cmd, redirTimes := rt }).1
       (sendCmd (plain e) dP sysP p { cmd := cmd, redirTimes := rt }).1 ∧
@@ -830,69 +830,88 @@ theorem sendCmd_sim (e : Env) (hs : e.strategy ≠ .disabled) (dC dP : Deliver)
       simp only
       by_cases hq : q = p
       · simp only [hq, if_true]
-        obtain ⟨h1, h2⟩ := backendCall_sim e.codec e.strategy hs sysC sysP hR p cmd hsup
+        obtain ⟨h1, h2⟩ := backendCall_sim e.codec e.strategy hs sysC sysP hR p cmd hf.1
         exact ⟨h1, by rw [h2, commitReply_disabled]⟩
       · simp only [hq, if_false]
         by_cases har : e.activeRedirection = true
         · simp only [har, if_true]
-          have hps : PassSingle cmd := by
-            rcases hfwd har with ⟨key', hk', ho'⟩ | h
-            · rw [hk] at hk'
-              injection hk' with hk'
-              subst hk'
-              rw [ho] at ho'
-              injection ho' with ho'
-              exact absurd ho' hq
-            · exact h
-          rw [wire_pass _ _ _ hps.2.1]
-          cases rt.orElse (fun _ => e.maxRedirections.map (· - 1)) with
-          | none => exact hD sysC sysP q cmd hR (.bare cmd hps)
+          cases ht : (rt.orElse (fun _ => e.maxRedirections.map (· - 1))).orElse
+              (fun _ => some usizeMax) with
+          | none => exact absurd ht (orElse_some_ne_none _ _)
           | some t =>
             simp only
-            by_cases ht : t = 0
-            · simp only [ht, if_true]; exact ⟨hR, by first | rfl | trivial⟩
-            · simp only [ht, if_false]
-              exact hD sysC sysP q _ hR (.wrapped _ cmd hps)
+            by_cases ht0 : t = 0
+            · simp only [ht0, if_true]; exact ⟨hR, by first | rfl | trivial⟩
+            · simp only [ht0, if_false]
+              exact hD sysC sysP q _ cmd hR hf
         · simp only [har]
           exact ⟨hR, by first | rfl | trivial⟩
 
+/-- `handle_single_key_data_cmd` on a command received from a client / created as sub-command
+(no redirection mark): the compressing cluster rewrites it, then both route alike -/
 theorem handleSingle_sim (e : Env) (hs : e.strategy ≠ .disabled) (dC dP : Deliver)
     (hD : DeliverRel e.codec e.strategy dC dP) (sysC sysP : Sys)
-    (hR : SysRel e.codec e.strategy sysC sysP) (p : Nat) (cmd : List Bytes) (rt : Option Nat)
-    (hsup : SupportedSingle cmd)
-    (hfwd : e.activeRedirection = true → LocalAt e p cmd ∨ PassSingle cmd) :
+    (hR : SysRel e.codec e.strategy sysC sysP) (p : Nat) (cmd : List Bytes) (hf : FwdCmd cmd) :
     SysRel e.codec e.strategy
-      (handleSingle e dC sysC p { cmd := cmd, redirTimes := rt }).1
-      (handleSingle (plain e) dP sysP p { cmd := cmd, redirTimes := rt }).1 ∧
-    (handleSingle e dC sysC p { cmd := cmd, redirTimes := rt }).2
-      = (handleSingle (plain e) dP sysP p { cmd := cmd, redirTimes := rt }).2 := by
-  have h1 : handleSingle e dC sysC p { cmd := cmd, redirTimes := rt }
-      = sendCmd e dC sysC p { cmd := wire e.codec e.strategy cmd, redirTimes := rt } := by
+      (handleSingle e dC sysC p { cmd := cmd, redirTimes := none }).1
+      (handleSingle (plain e) dP sysP p { cmd := cmd, redirTimes := none }).1 ∧
+    (handleSingle e dC sysC p { cmd := cmd, redirTimes := none }).2
+      = (handleSingle (plain e) dP sysP p { cmd := cmd, redirTimes := none }).2 := by
+  have h1 : handleSingle e dC sysC p { cmd := cmd, redirTimes := none }
+      = sendCmd e dC sysC p { cmd := wire e.codec e.strategy cmd, redirTimes := none } := by
     unfold handleSingle
-    simp only [compressCmd_supported e.codec e.strategy hs cmd hsup]
-  have h2 : handleSingle (plain e) dP sysP p { cmd := cmd, redirTimes := rt }
-      = sendCmd (plain e) dP sysP p { cmd := cmd, redirTimes := rt } := by
+    simp only [Option.isSome_none, Bool.false_eq_true, if_false,
+      compressCmd_supported e.codec e.strategy hs cmd hf.1]
+  have h2 : handleSingle (plain e) dP sysP p { cmd := cmd, redirTimes := none }
+      = sendCmd (plain e) dP sysP p { cmd := cmd, redirTimes := none } := by
     unfold handleSingle
     simp [plain, compressCmd]
   rw [h1, h2]
-  exact sendCmd_sim e hs dC dP hD sysC sysP hR p cmd rt hsup hfwd
+  exact sendCmd_sim e hs dC dP hD sysC sysP hR p cmd none hf
 
-/-- a sub-command (or single-key client command) the simulation can follow at proxy `p` -/
-def SubOK (e : Env) (p : Nat) (cmd : List Bytes) : Prop :=
-  SupportedSingle cmd ∧ (e.activeRedirection = true → LocalAt e p cmd ∨ PassSingle cmd)
+/-- `handle_single_key_data_cmd` on a command that arrived through UMFORWARD: nobody compresses;
+the compressing cluster holds the rewritten command already -/
+theorem handleSingle_fwd_sim (e : Env) (hs : e.strategy ≠ .disabled) (dC dP : Deliver)
+    (hD : DeliverRel e.codec e.strategy dC dP) (sysC sysP : Sys)
+    (hR : SysRel e.codec e.strategy sysC sysP) (p : Nat) (cmd : List Bytes) (t : Nat)
+    (hf : FwdCmd cmd) :
+    SysRel e.codec e.strategy
+      (handleSingle e dC sysC p { cmd := wire e.codec e.strategy cmd, redirTimes := some t }).1
+      (handleSingle (plain e) dP sysP p { cmd := cmd, redirTimes := some t }).1 ∧
+    (handleSingle e dC sysC p { cmd := wire e.codec e.strategy cmd, redirTimes := some t }).2
+      = (handleSingle (plain e) dP sysP p { cmd := cmd, redirTimes := some t }).2 := by
+  unfold handleSingle
+  simp only [Option.isSome_some, if_true]
+  exact sendCmd_sim e hs dC dP hD sysC sysP hR p cmd (some t) hf
 
 theorem runSubs_sim (e : Env) (hs : e.strategy ≠ .disabled) (dC dP : Deliver)
     (hD : DeliverRel e.codec e.strategy dC dP) (p : Nat) (cmds : List (List Bytes))
-    (hok : ∀ c ∈ cmds, SubOK e p c) (sysC sysP : Sys) (hR : SysRel e.codec e.strategy sysC sysP) :
-    SysRel e.codec e.strategy (runSubs e dC p sysC cmds).1 (runSubs (plain e) dP p sysP cmds).1 ∧
-    (runSubs e dC p sysC cmds).2 = (runSubs (plain e) dP p sysP cmds).2 := by
+    (hok : ∀ c ∈ cmds, FwdCmd c) (sysC sysP : Sys) (hR : SysRel e.codec e.strategy sysC sysP) :
+    SysRel e.codec e.strategy (runSubs e dC p none sysC cmds).1
+      (runSubs (plain e) dP p none sysP cmds).1 ∧
+    (runSubs e dC p none sysC cmds).2 = (runSubs (plain e) dP p none sysP cmds).2 := by
   induction cmds generalizing sysC sysP with
   | nil => exact ⟨hR, rfl⟩
   | cons x xs ih =>
-    obtain ⟨hx1, hx2⟩ := hok x List.mem_cons_self
-    obtain ⟨h1, h2⟩ := handleSingle_sim e hs dC dP hD sysC sysP hR p x none hx1 hx2
+    obtain ⟨h1, h2⟩ := handleSingle_sim e hs dC dP hD sysC sysP hR p x (hok x List.mem_cons_self)
     obtain ⟨h3, h4⟩ := ih (fun c hc => hok c (List.mem_cons_of_mem _ hc)) _ _ h1
     simp only [runSubs]
+    exact ⟨h3, by rw [h2, h4]⟩
+
+theorem runSubs_fwd_sim (e : Env) (hs : e.strategy ≠ .disabled) (dC dP : Deliver)
+    (hD : DeliverRel e.codec e.strategy dC dP) (p : Nat) (t : Nat) (cmds : List (List Bytes))
+    (hok : ∀ c ∈ cmds, FwdCmd c) (sysC sysP : Sys) (hR : SysRel e.codec e.strategy sysC sysP) :
+    SysRel e.codec e.strategy
+      (runSubs e dC p (some t) sysC (cmds.map (wire e.codec e.strategy))).1
+      (runSubs (plain e) dP p (some t) sysP cmds).1 ∧
+    (runSubs e dC p (some t) sysC (cmds.map (wire e.codec e.strategy))).2
+      = (runSubs (plain e) dP p (some t) sysP cmds).2 := by
+  induction cmds generalizing sysC sysP with
+  | nil => exact ⟨hR, rfl⟩
+  | cons x xs ih =>
+    obtain ⟨h1, h2⟩ := handleSingle_fwd_sim e hs dC dP hD sysC sysP hR p x t (hok x List.mem_cons_self)
+    obtain ⟨h3, h4⟩ := ih (fun c hc => hok c (List.mem_cons_of_mem _ hc)) _ _ h1
+    simp only [List.map_cons, runSubs]
     exact ⟨h3, by rw [h2, h4]⟩
 
 theorem cmdTypeOf_GET (args : List Bytes) : cmdTypeOf (GET :: args) = .Others := by
@@ -904,17 +923,15 @@ theorem dataTypeOf_SET (args : List Bytes) : dataTypeOf (SET :: args) = .Set := 
 theorem dataTypeOf_MSETNX (args : List Bytes) : dataTypeOf (MSETNX :: args) = .Msetnx := by
   rw [dataTypeOf_cons MSETNX args []]; decide
 
-theorem passSingle_get (k : Bytes) : PassSingle [GET, k] := by
-  refine ⟨cmdTypeOf_GET _, ?_, .inl ?_⟩
-  · rw [dataTypeOf_GET]; rfl
-  · rw [dataTypeOf_GET]; rfl
-
-theorem subOK_get (e : Env) (p : Nat) (k : Bytes) : SubOK e p [GET, k] := by
-  refine ⟨⟨?_, ?_⟩, fun _ => .inr (passSingle_get k)⟩
+theorem supportedSingle_get (k : Bytes) : SupportedSingle [GET, k] := by
+  refine ⟨?_, ?_⟩
   · rw [dataTypeOf_GET]; decide
   · intro i hi
     rw [dataTypeOf_GET] at hi
     simp [compressRule] at hi
+
+theorem fwdCmd_get (k : Bytes) : FwdCmd [GET, k] :=
+  ⟨supportedSingle_get k, by simp, .inl (by rw [dataTypeOf_GET]; rfl)⟩
 
 theorem handleMget_sim (e : Env) (hs : e.strategy ≠ .disabled) (dC dP : Deliver)
     (hD : DeliverRel e.codec e.strategy dC dP) (p : Nat) (ctx : Ctx)
@@ -931,7 +948,7 @@ theorem handleMget_sim (e : Env) (hs : e.strategy ≠ .disabled) (dC dP : Delive
         intro c hc
         simp only [List.mem_map] at hc
         obtain ⟨k, -, rfl⟩ := hc
-        exact subOK_get e p k) sysC sysP hR
+        exact fwdCmd_get k) sysC sysP hR
     simp only [plain] at h1 h2
     exact ⟨h1, by rw [h2]⟩
 
@@ -940,30 +957,28 @@ def keysOfPairs : List Bytes → List Bytes
   | k :: _ :: r => k :: keysOfPairs r
   | _ => []
 
-theorem subOK_set (e : Env) (p : Nat) (k v : Bytes)
-    (hk : e.activeRedirection = true → e.owner (e.slot k) = some p) : SubOK e p [SET, k, v] := by
-  refine ⟨⟨?_, ?_⟩, fun har => .inl ⟨k, ?_, hk har⟩⟩
-  · rw [dataTypeOf_SET]; decide
-  · intro i hi
-    rw [dataTypeOf_SET] at hi
-    have : compressRule .Set = .single 2 := rfl
-    rw [this] at hi
-    injection hi with hi
-    subst hi
-    simp
-  · rw [dataTypeOf_SET]; rfl
+theorem supportedSingle_single2 (n k v : Bytes) (rest : List Bytes)
+    (h : compressRule (dataTypeOf (n :: k :: v :: rest)) = .single 2) :
+    SupportedSingle (n :: k :: v :: rest) := by
+  refine ⟨by rw [h]; simp, fun i hi => ?_⟩
+  rw [h] at hi
+  injection hi with hi
+  subst hi
+  simp
+
+theorem fwdCmd_set (k v : Bytes) : FwdCmd [SET, k, v] :=
+  ⟨supportedSingle_single2 _ _ _ _ (by rw [dataTypeOf_SET]; rfl), by simp,
+    .inl (by rw [dataTypeOf_SET]; rfl)⟩
 
 theorem msetLoop_sim (e : Env) (hs : e.strategy ≠ .disabled) (dC dP : Deliver)
     (hD : DeliverRel e.codec e.strategy dC dP) (p : Nat) (rest : List Bytes)
-    (hk : e.activeRedirection = true → ∀ k ∈ keysOfPairs rest, e.owner (e.slot k) = some p)
     (sysC sysP : Sys) (hR : SysRel e.codec e.strategy sysC sysP) :
     SysRel e.codec e.strategy (msetLoop e dC p sysC rest).1 (msetLoop (plain e) dP p sysP rest).1 ∧
     (msetLoop e dC p sysC rest).2 = (msetLoop (plain e) dP p sysP rest).2 := by
   fun_induction keysOfPairs rest generalizing sysC sysP with
   | case1 k v r ih =>
-    obtain ⟨hx1, hx2⟩ := subOK_set e p k v (fun har => hk har k (by simp))
-    obtain ⟨h1, h2⟩ := handleSingle_sim e hs dC dP hD sysC sysP hR p [SET, k, v] none hx1 hx2
-    obtain ⟨h3, h4⟩ := ih (fun har k' hk' => hk har k' (by simp [hk'])) _ _ h1
+    obtain ⟨h1, h2⟩ := handleSingle_sim e hs dC dP hD sysC sysP hR p [SET, k, v] (fwdCmd_set k v)
+    obtain ⟨h3, h4⟩ := ih _ _ h1
     simp only [msetLoop]
     exact ⟨h3, by rw [h2, h4]⟩
   | case2 l hl =>
@@ -974,7 +989,6 @@ theorem msetLoop_sim (e : Env) (hs : e.strategy ≠ .disabled) (dC dP : Deliver)
 
 theorem handleMset_sim (e : Env) (hs : e.strategy ≠ .disabled) (dC dP : Deliver)
     (hD : DeliverRel e.codec e.strategy dC dP) (p : Nat) (ctx : Ctx)
-    (hk : e.activeRedirection = true → ∀ k ∈ keysOfPairs (ctx.cmd.drop 1), e.owner (e.slot k) = some p)
     (sysC sysP : Sys) (hR : SysRel e.codec e.strategy sysC sysP) :
     SysRel e.codec e.strategy (handleMset e dC sysC p ctx).1 (handleMset (plain e) dP sysP p ctx).1 ∧
     (handleMset e dC sysC p ctx).2 = (handleMset (plain e) dP sysP p ctx).2 := by
@@ -983,161 +997,274 @@ theorem handleMset_sim (e : Env) (hs : e.strategy ≠ .disabled) (dC dP : Delive
   by_cases hc : (!e.activeRedirection && !sameSlot e.slot (pairKeysForSlotCheck ctx.cmd)) = true
   · simp only [hc, ↓reduceIte]; exact ⟨hR, by first | rfl | trivial⟩
   · simp only [hc, Bool.false_eq_true, ↓reduceIte]
-    obtain ⟨h1, h2⟩ := msetLoop_sim e hs dC dP hD p (ctx.cmd.drop 1) hk sysC sysP hR
+    obtain ⟨h1, h2⟩ := msetLoop_sim e hs dC dP hD p (ctx.cmd.drop 1) sysC sysP hR
     simp only [plain] at h1 h2
     exact ⟨h1, by rw [h2]⟩
 
 /-! ### MSETNX regrouping -/
 
-/-- a regrouped command: `MSETNX k v …` whose first key is one of the client's keys -/
-def GroupOK (keys : List Bytes) (g : Nat × List Bytes) : Prop :=
-  ∃ k v r, g.2 = MSETNX :: k :: v :: r ∧ k ∈ keys
+/-- a regrouped command: `MSETNX` followed by a non-empty list of complete pairs -/
+def GroupOK (g : Nat × List Bytes) : Prop :=
+  ∃ kvs, g.2 = MSETNX :: kvs ∧ kvs ≠ [] ∧ kvs.length % 2 = 0
 
-theorem insertGroup_ok (keys : List Bytes) (slot : Nat) (k v : Bytes) (hk : k ∈ keys)
-    (gs : List (Nat × List Bytes)) (h : ∀ g ∈ gs, GroupOK keys g) :
-    ∀ g ∈ insertGroup slot k v gs, GroupOK keys g := by
+theorem insertGroup_ok (slot : Nat) (k v : Bytes)
+    (gs : List (Nat × List Bytes)) (h : ∀ g ∈ gs, GroupOK g) :
+    ∀ g ∈ insertGroup slot k v gs, GroupOK g := by
   induction gs with
   | nil =>
     intro g hg
     simp only [insertGroup, List.mem_singleton] at hg
     subst hg
-    exact ⟨k, v, [], rfl, hk⟩
+    exact ⟨[k, v], rfl, by simp, by simp⟩
   | cons x xs ih =>
     obtain ⟨sl, cm⟩ := x
     intro g hg
     simp only [insertGroup] at hg
     split at hg
     · rcases List.mem_cons.mp hg with rfl | hg
-      · obtain ⟨k0, v0, r0, h0, hk0⟩ := h (sl, cm) List.mem_cons_self
+      · obtain ⟨kvs, h0, hne, hev⟩ := h (sl, cm) List.mem_cons_self
         simp only at h0
-        exact ⟨k0, v0, r0 ++ [k, v], by simp [h0], hk0⟩
+        exact ⟨kvs ++ [k, v], by simp [h0], by simp, by simp; omega⟩
       · exact h g (List.mem_cons_of_mem _ hg)
     · rcases List.mem_cons.mp hg with rfl | hg
       · exact h _ List.mem_cons_self
       · exact ih (fun g hg => h g (List.mem_cons_of_mem _ hg)) g hg
 
-theorem groupBySlot_ok (keys : List Bytes) (slot : Bytes → Nat) (pairs : List (Bytes × Bytes))
-    (hp : ∀ kv ∈ pairs, kv.1 ∈ keys) (acc : List (Nat × List Bytes)) (h : ∀ g ∈ acc, GroupOK keys g) :
-    ∀ g ∈ groupBySlot slot pairs acc, GroupOK keys g := by
+theorem groupBySlot_ok (slot : Bytes → Nat) (pairs : List (Bytes × Bytes))
+    (acc : List (Nat × List Bytes)) (h : ∀ g ∈ acc, GroupOK g) :
+    ∀ g ∈ groupBySlot slot pairs acc, GroupOK g := by
   induction pairs generalizing acc with
   | nil => simpa [groupBySlot] using h
   | cons kv rest ih =>
     obtain ⟨k, v⟩ := kv
     simp only [groupBySlot]
-    exact ih (fun kv hkv => hp kv (List.mem_cons_of_mem _ hkv)) _
-      (insertGroup_ok keys _ k v (hp (k, v) List.mem_cons_self) acc h)
+    exact ih _ (insertGroup_ok _ k v acc h)
 
-theorem pairsOf_keys (rest : List Bytes) (pairs : List (Bytes × Bytes)) (h : pairsOf rest = some pairs) :
-    ∀ kv ∈ pairs, kv.1 ∈ keysOfPairs rest := by
-  fun_induction pairsOf rest generalizing pairs with
-  | case1 => injection h with h; subst h; simp
-  | case2 => cases h
-  | case3 k v r ih =>
-    cases hr : pairsOf r with
-    | none => simp [hr] at h
-    | some ps =>
-      simp only [hr, Option.map_some, Option.some.injEq] at h
-      subst h
-      intro kv hkv
-      rcases List.mem_cons.mp hkv with rfl | hkv
-      · simp [keysOfPairs]
-      · simp only [keysOfPairs, List.mem_cons]
-        exact .inr (ih ps hr kv hkv)
+theorem dispatch_msetnx_rule : ∀ ty : DataCmdType, dispatchRule ty = .msetnx →
+    compressRule ty = .multi 2 2 := by
+  intro ty; cases ty <;> decide
 
-theorem subOK_group (e : Env) (p : Nat) (keys : List Bytes)
-    (hk : e.activeRedirection = true → ∀ k ∈ keys, e.owner (e.slot k) = some p)
-    (g : Nat × List Bytes) (hg : GroupOK keys g) : SubOK e p g.2 := by
-  obtain ⟨k, v, r, hcmd, hkk⟩ := hg
+theorem wire_group (c : Codec) (s : Strategy) (hs : s ≠ .disabled) (kvs : List Bytes) :
+    wire c s (MSETNX :: kvs) = MSETNX :: encPairs c kvs :=
+  wire_multi c s hs MSETNX kvs (by rw [dataTypeOf_MSETNX]; rfl)
+
+theorem fwdCmd_group (g : Nat × List Bytes) (hg : GroupOK g) : FwdCmd g.2 := by
+  obtain ⟨kvs, hcmd, -, -⟩ := hg
   rw [hcmd]
-  have hty : dataTypeOf (MSETNX :: k :: v :: r) = .Msetnx := dataTypeOf_MSETNX _
-  refine ⟨⟨?_, ?_⟩, fun har => .inl ⟨k, ?_, hk har k hkk⟩⟩
-  · rw [hty]; decide
+  refine ⟨⟨?_, ?_⟩, by simp, .inr (.inr ?_)⟩
+  · rw [dataTypeOf_MSETNX]; decide
   · intro i hi
-    rw [hty] at hi
+    rw [dataTypeOf_MSETNX] at hi
     simp [compressRule] at hi
-  · rw [hty]; rfl
+  · rw [dataTypeOf_MSETNX]; rfl
 
+/-- `handle_msetnx` for a client command (no redirection mark) -/
 theorem handleMsetnx_sim (e : Env) (hs : e.strategy ≠ .disabled) (dC dP : Deliver)
-    (hD : DeliverRel e.codec e.strategy dC dP) (p : Nat) (ctx : Ctx)
-    (hk : e.activeRedirection = true → ∀ k ∈ keysOfPairs (ctx.cmd.drop 1), e.owner (e.slot k) = some p)
+    (hD : DeliverRel e.codec e.strategy dC dP) (p : Nat) (cmd : List Bytes)
     (sysC sysP : Sys) (hR : SysRel e.codec e.strategy sysC sysP) :
-    SysRel e.codec e.strategy (handleMsetnx e dC sysC p ctx).1 (handleMsetnx (plain e) dP sysP p ctx).1 ∧
-    (handleMsetnx e dC sysC p ctx).2 = (handleMsetnx (plain e) dP sysP p ctx).2 := by
+    SysRel e.codec e.strategy (handleMsetnx e dC sysC p { cmd := cmd, redirTimes := none }).1
+      (handleMsetnx (plain e) dP sysP p { cmd := cmd, redirTimes := none }).1 ∧
+    (handleMsetnx e dC sysC p { cmd := cmd, redirTimes := none }).2
+      = (handleMsetnx (plain e) dP sysP p { cmd := cmd, redirTimes := none }).2 := by
   unfold handleMsetnx
   simp only [plain]
-  by_cases hc : (!e.activeRedirection && !sameSlot e.slot (pairKeysForSlotCheck ctx.cmd)) = true
+  by_cases hc : (!e.activeRedirection && !sameSlot e.slot (pairKeysForSlotCheck cmd)) = true
   · simp only [hc, ↓reduceIte]; exact ⟨hR, by first | rfl | trivial⟩
   · simp only [hc, Bool.false_eq_true, ↓reduceIte]
-    cases hp : pairsOf (ctx.cmd.drop 1) with
+    cases hp : pairsOf (cmd.drop 1) with
     | none => exact ⟨hR, rfl⟩
     | some pairs =>
       simp only
-      have hgroups := groupBySlot_ok (keysOfPairs (ctx.cmd.drop 1)) e.slot pairs
-        (pairsOf_keys _ _ hp) [] (by simp)
+      have hgroups := groupBySlot_ok e.slot pairs [] (by simp)
       obtain ⟨h1, h2⟩ := runSubs_sim e hs dC dP hD p ((groupBySlot e.slot pairs []).map (·.2))
         (by
           intro c hc
           simp only [List.mem_map] at hc
           obtain ⟨g, hg, rfl⟩ := hc
-          exact subOK_group e p _ hk g (hgroups g hg)) sysC sysP hR
+          exact fwdCmd_group g (hgroups g hg)) sysC sysP hR
+      simp only [plain] at h1 h2
+      exact ⟨h1, by rw [h2]⟩
+
+/-! #### the same regrouping on an already rewritten MSETNX (forwarded) -/
+
+def encKV (c : Codec) (kv : Bytes × Bytes) : Bytes × Bytes := (kv.1, c.enc kv.2)
+
+def encGroup (c : Codec) (g : Nat × List Bytes) : Nat × List Bytes :=
+  (g.1, match g.2 with
+    | [] => []
+    | h :: t => h :: encPairs c t)
+
+theorem pairsOf_encPairs (c : Codec) (l : List Bytes) :
+    pairsOf (encPairs c l) = (pairsOf l).map (List.map (encKV c)) := by
+  fun_induction encPairs c l with
+  | case1 k v r ih => simp only [pairsOf, ih]; cases pairsOf r <;> simp [encKV]
+  | case2 k => simp [pairsOf]
+  | case3 => simp [pairsOf]
+
+theorem encPairs_append_even (c : Codec) (a b : List Bytes) (h : a.length % 2 = 0) :
+    encPairs c (a ++ b) = encPairs c a ++ encPairs c b := by
+  fun_induction encPairs c a with
+  | case1 k v r ih =>
+    simp only [List.cons_append, encPairs]
+    rw [ih (by simp at h; omega)]
+  | case2 k => simp at h
+  | case3 => simp
+
+theorem insertGroup_enc (c : Codec) (slot : Nat) (k v : Bytes) (gs : List (Nat × List Bytes))
+    (h : ∀ g ∈ gs, GroupOK g) :
+    insertGroup slot k (c.enc v) (gs.map (encGroup c)) = (insertGroup slot k v gs).map (encGroup c) := by
+  induction gs with
+  | nil => simp [insertGroup, encGroup, encPairs]
+  | cons x xs ih =>
+    obtain ⟨sl, cm⟩ := x
+    obtain ⟨kvs, h0, -, hev⟩ := h (sl, cm) List.mem_cons_self
+    simp only at h0
+    subst h0
+    simp only [List.map_cons, insertGroup, encGroup]
+    by_cases hsl : sl = slot
+    · simp only [hsl, if_true, List.map_cons, encGroup, List.cons_append,
+        encPairs_append_even c kvs [k, v] hev, encPairs]
+    · simp only [hsl, if_false, List.map_cons, encGroup]
+      rw [← ih (fun g hg => h g (List.mem_cons_of_mem _ hg))]
+
+theorem groupBySlot_enc (c : Codec) (slot : Bytes → Nat) (pairs : List (Bytes × Bytes))
+    (acc : List (Nat × List Bytes)) (h : ∀ g ∈ acc, GroupOK g) :
+    groupBySlot slot (pairs.map (encKV c)) (acc.map (encGroup c))
+      = (groupBySlot slot pairs acc).map (encGroup c) := by
+  induction pairs generalizing acc with
+  | nil => simp [groupBySlot]
+  | cons kv rest ih =>
+    obtain ⟨k, v⟩ := kv
+    simp only [List.map_cons, encKV, groupBySlot]
+    rw [insertGroup_enc c _ k v acc h]
+    exact ih _ (insertGroup_ok _ k v acc h)
+
+theorem encGroup_wire (c : Codec) (s : Strategy) (hs : s ≠ .disabled) (g : Nat × List Bytes)
+    (hg : GroupOK g) : (encGroup c g).2 = wire c s g.2 := by
+  obtain ⟨kvs, h0, -, -⟩ := hg
+  rw [h0, wire_group c s hs]
+  simp [encGroup, h0]
+
+theorem filterMap_congr' {α β : Type} (f g : α → Option β) (l : List α)
+    (h : ∀ x ∈ l, f x = g x) : l.filterMap f = l.filterMap g := by
+  induction l with
+  | nil => rfl
+  | cons x xs ih =>
+    simp only [List.filterMap_cons, h x List.mem_cons_self,
+      ih (fun y hy => h y (List.mem_cons_of_mem _ hy))]
+
+theorem slotKeys_enc (c : Codec) (n : Bytes) (args : List Bytes) :
+    pairKeysForSlotCheck (n :: encPairs c args) = pairKeysForSlotCheck (n :: args) := by
+  unfold pairKeysForSlotCheck
+  simp only [List.length_cons, encPairs_length]
+  apply filterMap_congr'
+  intro i _
+  simp only [List.getElem?_cons_succ, encPairs_getElem?]
+  simp
+
+/-- `handle_msetnx` on a forwarded MSETNX: the compressing cluster regroups the rewritten command -/
+theorem handleMsetnx_fwd_sim (e : Env) (hs : e.strategy ≠ .disabled) (dC dP : Deliver)
+    (hD : DeliverRel e.codec e.strategy dC dP) (p : Nat) (n : Bytes) (args : List Bytes) (t : Nat)
+    (hd : dispatchRule (dataTypeOf (n :: args)) = .msetnx)
+    (sysC sysP : Sys) (hR : SysRel e.codec e.strategy sysC sysP) :
+    SysRel e.codec e.strategy
+      (handleMsetnx e dC sysC p { cmd := wire e.codec e.strategy (n :: args), redirTimes := some t }).1
+      (handleMsetnx (plain e) dP sysP p { cmd := n :: args, redirTimes := some t }).1 ∧
+    (handleMsetnx e dC sysC p { cmd := wire e.codec e.strategy (n :: args), redirTimes := some t }).2
+      = (handleMsetnx (plain e) dP sysP p { cmd := n :: args, redirTimes := some t }).2 := by
+  rw [wire_multi e.codec e.strategy hs n args (dispatch_msetnx_rule _ hd)]
+  unfold handleMsetnx
+  simp only [plain, slotKeys_enc, List.drop_succ_cons, List.drop_zero, pairsOf_encPairs]
+  by_cases hc : (!e.activeRedirection && !sameSlot e.slot (pairKeysForSlotCheck (n :: args))) = true
+  · simp only [hc, ↓reduceIte]; exact ⟨hR, by first | rfl | trivial⟩
+  · simp only [hc, Bool.false_eq_true, ↓reduceIte]
+    cases hp : pairsOf args with
+    | none => exact ⟨hR, rfl⟩
+    | some pairs =>
+      simp only [Option.map_some]
+      have hgroups := groupBySlot_ok e.slot pairs [] (by simp)
+      have hg : groupBySlot e.slot (pairs.map (encKV e.codec)) []
+          = (groupBySlot e.slot pairs []).map (encGroup e.codec) := by
+        have := groupBySlot_enc e.codec e.slot pairs [] (by simp)
+        simpa using this
+      have hcmds : ((groupBySlot e.slot (pairs.map (encKV e.codec)) []).map (·.2))
+          = ((groupBySlot e.slot pairs []).map (·.2)).map (wire e.codec e.strategy) := by
+        rw [hg, List.map_map, List.map_map]
+        apply List.map_congr_left
+        intro g hgm
+        exact encGroup_wire e.codec e.strategy hs g (hgroups g hgm)
+      rw [hcmds]
+      obtain ⟨h1, h2⟩ := runSubs_fwd_sim e hs dC dP hD p t ((groupBySlot e.slot pairs []).map (·.2))
+        (by
+          intro c hc
+          simp only [List.mem_map] at hc
+          obtain ⟨g, hg, rfl⟩ := hc
+          exact fwdCmd_group g (hgroups g hg)) sysC sysP hR
       simp only [plain] at h1 h2
       exact ⟨h1, by rw [h2]⟩
 
 /-! ### whole commands, hops, sequences -/
 
-theorem PassSingle.supported {cmd : List Bytes} (h : PassSingle cmd) : SupportedSingle cmd :=
-  ⟨by rw [h.2.1]; simp, fun i hi => by rw [h.2.1] at hi; cases hi⟩
+theorem wire_length (c : Codec) (s : Strategy) (cmd : List Bytes) :
+    (wire c s cmd).length = cmd.length := by
+  cases cmd with
+  | nil => rw [wire_nil]
+  | cons n args =>
+    obtain ⟨args', h, hl⟩ := wire_cons c s n args
+    rw [h]; simp [hl]
 
-/-- a forwarded value-free command, as the receiving proxy's `handle_data_cmd` sees it -/
-theorem handleDataCmd_pass_sim (e : Env) (hs : e.strategy ≠ .disabled) (dC dP : Deliver)
-    (hD : DeliverRel e.codec e.strategy dC dP) (p : Nat) (cmd : List Bytes) (rt : Option Nat)
-    (hp : PassSingle cmd) (sysC sysP : Sys) (hR : SysRel e.codec e.strategy sysC sysP) :
-    SysRel e.codec e.strategy (handleDataCmd e dC sysC p { cmd := cmd, redirTimes := rt }).1
-      (handleDataCmd (plain e) dP sysP p { cmd := cmd, redirTimes := rt }).1 ∧
-    (handleDataCmd e dC sysC p { cmd := cmd, redirTimes := rt }).2
-      = (handleDataCmd (plain e) dP sysP p { cmd := cmd, redirTimes := rt }).2 := by
-  have hS := handleSingle_sim e hs dC dP hD sysC sysP hR p cmd rt hp.supported (fun _ => .inr hp)
+/-- a forwarded command, as the receiving proxy's `handle_data_cmd` sees it -/
+theorem handleDataCmd_fwd_sim (e : Env) (hs : e.strategy ≠ .disabled) (dC dP : Deliver)
+    (hD : DeliverRel e.codec e.strategy dC dP) (p : Nat) (cmd : List Bytes) (t : Nat)
+    (hf : FwdCmd cmd) (sysC sysP : Sys) (hR : SysRel e.codec e.strategy sysC sysP) :
+    SysRel e.codec e.strategy
+      (handleDataCmd e dC sysC p { cmd := wire e.codec e.strategy cmd, redirTimes := some t }).1
+      (handleDataCmd (plain e) dP sysP p { cmd := cmd, redirTimes := some t }).1 ∧
+    (handleDataCmd e dC sysC p { cmd := wire e.codec e.strategy cmd, redirTimes := some t }).2
+      = (handleDataCmd (plain e) dP sysP p { cmd := cmd, redirTimes := some t }).2 := by
+  have hS := handleSingle_fwd_sim e hs dC dP hD sysC sysP hR p cmd t hf
   unfold handleDataCmd
-  rcases hp.2.2 with hd | ⟨hd, h2⟩
+  simp only [dataTypeOf_wire]
+  rcases hf.2.2 with hd | ⟨hd, h2⟩ | hd
   · simp only [hd]; exact hS
-  · simp only [hd, h2, Option.isSome_none, Bool.false_eq_true, if_false]; exact hS
+  · have h2' : (wire e.codec e.strategy cmd)[2]? = none := by
+      rw [List.getElem?_eq_none_iff] at h2 ⊢
+      rw [wire_length]; exact h2
+    simp only [hd, h2, h2', Option.isSome_none, Bool.false_eq_true, if_false]; exact hS
+  · simp only [hd]
+    cases cmd with
+    | nil => exact absurd rfl hf.2.1
+    | cons n args => exact handleMsetnx_fwd_sim e hs dC dP hD p n args t hd sysC sysP hR
 
 theorem cmdTypeOf_UMFORWARD (args : List Bytes) : cmdTypeOf (UMFORWARD :: args) = .UmForward := by
   rw [cmdTypeOf_cons UMFORWARD args []]; decide
 
-/-- **hop induction**: whatever one proxy forwards (value-free commands), the receiving proxies of
-the two clusters answer alike -/
+/-- **hop induction**: whatever one proxy forwards — the rewritten command in the compressing
+cluster, the original in the plain one — the receiving proxies answer alike and stay related -/
 theorem handle_deliverRel (e : Env) (hs : e.strategy ≠ .disabled) :
     ∀ n, DeliverRel e.codec e.strategy (handle e n) (handle (plain e) n) := by
   intro n
   induction n with
   | zero =>
-    intro sysC sysP q fwd hR _
+    intro sysC sysP q t cmd hR _
     exact ⟨hR, rfl⟩
   | succ n ih =>
-    intro sysC sysP q fwd hR hf
+    intro sysC sysP q t cmd hR hf
     simp only [handle]
-    cases hf with
-    | bare _ hp =>
-      unfold handleCmdCtx
-      simp only [hp.1]
-      exact handleDataCmd_pass_sim e hs _ _ ih q fwd none hp sysC sysP hR
-    | wrapped t cmd hp =>
-      unfold handleCmdCtx
-      simp only [cmdTypeOf_UMFORWARD]
-      unfold handleUmforward
-      simp only [List.getElem?_cons_succ, List.getElem?_cons_zero, List.drop_succ_cons, List.drop_zero]
-      split
-      · exact ⟨hR, rfl⟩
-      · cases parseUsize t with
-        | none => exact ⟨hR, rfl⟩
-        | some times =>
-          simp only
-          have : cmd.length ≠ 0 := by
-            intro h0
-            exact hp.ne_nil (List.length_eq_zero_iff.mp h0)
-          simp only [this, if_false]
-          exact handleDataCmd_pass_sim e hs _ _ ih q cmd (some times) hp sysC sysP hR
+    unfold handleCmdCtx
+    simp only [cmdTypeOf_UMFORWARD]
+    unfold handleUmforward
+    simp only [List.getElem?_cons_succ, List.getElem?_cons_zero, List.drop_succ_cons, List.drop_zero]
+    split
+    · exact ⟨hR, rfl⟩
+    · cases parseUsize t with
+      | none => exact ⟨hR, rfl⟩
+      | some times =>
+        simp only
+        have h0 : cmd.length ≠ 0 := fun h0 => hf.2.1 (List.length_eq_zero_iff.mp h0)
+        have h0' : (wire e.codec e.strategy cmd).length ≠ 0 := by rw [wire_length]; exact h0
+        simp only [h0, h0', if_false]
+        exact handleDataCmd_fwd_sim e hs _ _ ih q cmd times hf sysC sysP hR
 
 /-- client commands covered by the simulation: a data command (not `UMFORWARD`, `UMCTL`, …) that
 the model follows (no multi-key DEL/EXISTS, blocking command or EVAL), not on the restricted list,
@@ -1153,19 +1280,13 @@ def Supported (cmd : List Bytes) : Prop :=
   | .blocking => False
   | .eval => False
 
-/-- every key *written* by `cmd` is owned by the proxy `p` that receives it -/
-def WritesAtOwner (e : Env) (p : Nat) (cmd : List Bytes) : Prop :=
-  match dispatchRule (dataTypeOf cmd) with
-  | .mset => ∀ k ∈ keysOfPairs (cmd.drop 1), e.owner (e.slot k) = some p
-  | .msetnx => ∀ k ∈ keysOfPairs (cmd.drop 1), e.owner (e.slot k) = some p
-  | .single => compressRule (dataTypeOf cmd) = .pass ∨ LocalAt e p cmd
-  | .multiInt => compressRule (dataTypeOf cmd) = .pass ∨ LocalAt e p cmd
-  | _ => True
+theorem Supported.ne_nil {cmd : List Bytes} (h : Supported cmd) : cmd ≠ [] := by
+  intro hn; subst hn
+  exact absurd h.1 (by decide)
 
 /-- one client command at proxy `p`: the two clusters stay related and answer alike -/
 theorem handle_sim (e : Env) (hs : e.strategy ≠ .disabled) (n : Nat) (p : Nat) (cmd : List Bytes)
-    (hsup : Supported cmd) (hw : e.activeRedirection = true → WritesAtOwner e p cmd)
-    (sysC sysP : Sys) (hR : SysRel e.codec e.strategy sysC sysP) :
+    (hsup : Supported cmd) (sysC sysP : Sys) (hR : SysRel e.codec e.strategy sysC sysP) :
     SysRel e.codec e.strategy (handle e n sysC p cmd).1 (handle (plain e) n sysP p cmd).1 ∧
     (handle e n sysC p cmd).2 = (handle (plain e) n sysP p cmd).2 := by
   cases n with
@@ -1177,30 +1298,19 @@ theorem handle_sim (e : Env) (hs : e.strategy ≠ .disabled) (n : Nat) (p : Nat)
     simp only [hsup.1]
     unfold handleDataCmd
     have h2 := hsup.2
-    unfold WritesAtOwner at hw
     cases hd : dispatchRule (dataTypeOf cmd) with
     | mget => exact handleMget_sim e hs _ _ hD p _ sysC sysP hR
-    | mset =>
-      simp only [hd] at hw
-      exact handleMset_sim e hs _ _ hD p _ hw sysC sysP hR
-    | msetnx =>
-      simp only [hd] at hw
-      exact handleMsetnx_sim e hs _ _ hD p _ hw sysC sysP hR
+    | mset => exact handleMset_sim e hs _ _ hD p _ sysC sysP hR
+    | msetnx => exact handleMsetnx_sim e hs _ _ hD p cmd sysC sysP hR
     | blocking => simp only [hd] at h2
     | eval => simp only [hd] at h2
     | single =>
-      simp only [hd] at h2 hw
-      refine handleSingle_sim e hs _ _ hD sysC sysP hR p cmd none h2 (fun har => ?_)
-      rcases hw har with hp | hl
-      · exact .inr ⟨hsup.1, hp, .inl hd⟩
-      · exact .inl hl
+      simp only [hd] at h2
+      exact handleSingle_sim e hs _ _ hD sysC sysP hR p cmd ⟨h2, hsup.ne_nil, .inl hd⟩
     | multiInt =>
-      simp only [hd] at h2 hw
+      simp only [hd] at h2
       simp only [h2.1, Option.isSome_none, Bool.false_eq_true, if_false]
-      refine handleSingle_sim e hs _ _ hD sysC sysP hR p cmd none h2.2 (fun har => ?_)
-      rcases hw har with hp | hl
-      · exact .inr ⟨hsup.1, hp, .inr ⟨hd, h2.1⟩⟩
-      · exact .inl hl
+      exact handleSingle_sim e hs _ _ hD sysC sysP hR p cmd ⟨h2.2, hsup.ne_nil, .inr (.inl ⟨hd, h2.1⟩)⟩
 
 /-- a sequence of client commands, each sent to some proxy -/
 def runOps (e : Env) (fuel : Nat) : Sys → List (Nat × List Bytes) → Sys × List Resp
@@ -1212,7 +1322,6 @@ def runOps (e : Env) (fuel : Nat) : Sys → List (Nat × List Bytes) → Sys × 
 
 theorem runOps_sim (e : Env) (hs : e.strategy ≠ .disabled) (n : Nat) (ops : List (Nat × List Bytes))
     (hsup : ∀ op ∈ ops, Supported op.2)
-    (hw : e.activeRedirection = true → ∀ op ∈ ops, WritesAtOwner e op.1 op.2)
     (sysC sysP : Sys) (hR : SysRel e.codec e.strategy sysC sysP) :
     SysRel e.codec e.strategy (runOps e n sysC ops).1 (runOps (plain e) n sysP ops).1 ∧
     (runOps e n sysC ops).2 = (runOps (plain e) n sysP ops).2 := by
@@ -1220,10 +1329,8 @@ theorem runOps_sim (e : Env) (hs : e.strategy ≠ .disabled) (n : Nat) (ops : Li
   | nil => exact ⟨hR, rfl⟩
   | cons op ops ih =>
     obtain ⟨p, cmd⟩ := op
-    obtain ⟨h1, h2⟩ := handle_sim e hs n p cmd (hsup (p, cmd) List.mem_cons_self)
-      (fun har => hw har (p, cmd) List.mem_cons_self) sysC sysP hR
-    obtain ⟨h3, h4⟩ := ih (fun op hop => hsup op (List.mem_cons_of_mem _ hop))
-      (fun har op hop => hw har op (List.mem_cons_of_mem _ hop)) _ _ h1
+    obtain ⟨h1, h2⟩ := handle_sim e hs n p cmd (hsup (p, cmd) List.mem_cons_self) sysC sysP hR
+    obtain ⟨h3, h4⟩ := ih (fun op hop => hsup op (List.mem_cons_of_mem _ hop)) _ _ h1
     simp only [runOps]
     exact ⟨h3, by rw [h2, h4]⟩
 
@@ -1275,7 +1382,8 @@ theorem handleSingle_local (e : Env) (hs : e.strategy ≠ .disabled) (d : Delive
          (backendCall sys p (wire e.codec e.strategy cmd)).2) := by
   obtain ⟨key, hk, ho⟩ := hl
   unfold handleSingle
-  simp only [compressCmd_supported e.codec e.strategy hs cmd hsup]
+  simp only [Option.isSome_none, Bool.false_eq_true, if_false,
+    compressCmd_supported e.codec e.strategy hs cmd hsup]
   unfold sendCmd
   simp only [dataTypeOf_wire, wire_key, hk, ho, if_true]
 
@@ -1293,14 +1401,5 @@ theorem handle_single_local (e : Env) (hs : e.strategy ≠ .disabled) (n : Nat) 
   unfold handleDataCmd
   simp only [hd]
   exact handleSingle_local e hs _ sys p cmd hsup hl
-
-theorem supportedSingle_single2 (n k v : Bytes) (rest : List Bytes)
-    (h : compressRule (dataTypeOf (n :: k :: v :: rest)) = .single 2) :
-    SupportedSingle (n :: k :: v :: rest) := by
-  refine ⟨by rw [h]; simp, fun i hi => ?_⟩
-  rw [h] at hi
-  injection hi with hi
-  subst hi
-  simp
 
 end Um.Compress
